@@ -14,7 +14,7 @@ class C05(Prop):
           "of miros/activeobject.py and miros/hsm.py and at every virtual primitive operation): a "
           "running ActiveObject, 1-3 poster threads plus the body thread posting fifo/lifo events, "
           "optionally 1 or 497..500 events queued before start_at so that the bounded token queue "
-          "is reached, optionally long bursts of 15-40 posts per poster that overlap the object's "
+          "is reached (one heavy case in ten on a subclass declaring QUEUE_SIZE 600 with 501/540 events waiting), optionally long bursts of 15-40 posts per poster that overlap the object's "
           "steps, optionally with live spy/trace output switched on; the generated schedule prefix is followed by fair round-robin. Oracle: the "
           "exact deadlock detector (every thread blocked, no timer pending) never fires, the step "
           "bound (400k scheduling steps, >100x the longest passing run) is never reached under the "
